@@ -56,7 +56,9 @@ NEG_ESC = ['\\S', '\\D', '\\W', '\\I', '\\C']
 CATS = ['L', 'Lu', 'Ll', 'N', 'Nd', 'P', 'Pd', 'Pc', 'Z', 'Zs', 'S', 'Sm', 'C', 'Cc', 'IsBasicLatin', 'IsLatin-1Supplement',
         'IsArabic', 'IsGreek']
 BAD_ESC = ['\\a', '\\f', '\\v', '\\e', '\\q', '\\_', '\\:', '\\ ', '\\#', '\\&', '\\=', '\\,', '\\0', '\\b', '\\A', '\\Z',
-           '\\x41', '\\u0041', '\\p{Xx}', '\\p{IsFoo}', '\\pL', '\\/', '\\~', '\\"', '\\<']
+           '\\x41', '\\u0041', '\\p{Xx}', '\\p{IsFoo}', '\\pL', '\\/', '\\~', '\\"', '\\<',
+           # blanks inside a category/block name are only dropped under the x flag
+           '\\p{L u}', '\\P{ Nd }', '\\p{Is BasicLatin}', '\\p{ L}', '\\P{Lu }', '\\p{IsBasic Latin}']
 
 
 class Gen:
@@ -375,6 +377,27 @@ def g_functions_case(r):
     if r.random() < 0.03:
         s = ''
     return {'s': s, 'p': p, 'flags': flags}
+
+
+GROUP_PIECES = ['a', 'b', 'c', 'x', '(a)', '(b?)', '(c*)', '(x?)', '((a)|b)', '(a|)', '(b?)?', '((x?)c)', '(a(b?))',
+                '(?:b?)', '(x*)(c?)', 'a?', '.', '(.?)']
+
+
+def g_group_shape_case(r):
+    """capturing groups that take part in a match with an EMPTY capture, preceded/followed by ungrouped text"""
+    p = ''.join(r.choice(GROUP_PIECES) for _ in range(r.randint(2, 5)))
+    try:
+        rx = M.parse(p, 'xpath', '1.0', '')
+    except (M.Invalid, M.Undecided):
+        rx = None
+    parts = []
+    for _ in range(r.randint(1, 3)):
+        if r.random() < 0.5:
+            parts.append(''.join(r.choice('abcx') for _ in range(r.randint(0, 2))))
+        if rx is not None:
+            parts.append(sample(rx, r, ASCII_SUBJ))
+    s = ''.join(parts)[:12]
+    return {'s': s, 'p': p, 'flags': ''}
 
 
 # ============================================================================ engine side
@@ -707,6 +730,21 @@ def norm_msg(msg):
 
 
 # ============================================================================ kind 'translate'
+def refine_reason(reason, p, ver):
+    """split the model's 'unknown-category' by what is wrong with the name, so that one listed deviation
+    (an unknown block name is accepted) does not hide another (blanks in a name are ignored)"""
+    if reason != 'unknown-category':
+        return reason
+    names = re.findall(r'\\[pP]\{([^}]*)\}', p)
+    for n in names:
+        if n != n.strip() or ' ' in n or '\t' in n or '\n' in n:
+            blk = n.replace(' ', '').startswith('Is')
+            return 'unknown-category/blank-in-name' + ('/block-xsd-%s' % ver if blk else '')
+    if any(n.startswith('Is') for n in names):
+        return 'unknown-category/block'
+    return 'unknown-category/category'
+
+
 def check_translate(case, out):
     p, flags, ver, mode, subjects = case['p'], case['flags'], case['ver'], case['mode'], case['subjects']
     st = model_parse(p, mode, ver, flags)
@@ -728,7 +766,7 @@ def check_translate(case, out):
         out.dim('invalid_reason', st[1])
         out.obs = 'invalid (%s); engine %s' % (st[1], comp[0])
         if comp[0] == 'ok':
-            reason = st[1]
+            reason = refine_reason(st[1], p, ver)
             if 'x' in flags and '#' in re.sub(r'\\.|\[[^\]]*\]', '', p):
                 reason = 'x-flag/hash-treated-as-comment'
             elif 'x' in flags and M.strip_x(p) != p and \
@@ -838,7 +876,8 @@ def check_functions(case, out):
                 xr = x_reason(p, flags)
                 if xr and fn_call('matches($s,$p,$f)', s, M.strip_x(p), flags.replace('x', ''))[0] == 'ok':
                     xr = None
-                out.fail('C12/%s' % (xr or 'invalid-accepted/' + st[1]), dict(ctx, function=name, expected='FORX0002', got='a result'))
+                out.fail('C12/%s' % (xr or 'invalid-accepted/' + refine_reason(st[1], p, '1.0')),
+                         dict(ctx, function=name, expected='FORX0002', got='a result'))
                 break
             if r[0] == 'err' and r[1] != 'FORX0002':
                 out.fail('C12/functions/invalid-pattern-error-code/%s/%s' % (name, r[1]), dict(ctx, expected='FORX0002'))
@@ -1055,6 +1094,8 @@ def shrink(kind, case):
 
 # hand-written seeds: the class algebra named in the property statement and the F&O examples
 SEED_TRANSLATE = [
+    ('\\p{L u}', '', 'xpath'), ('\\P{ Nd }', '', 'xpath'), ('\\p{Is BasicLatin}', '', 'xpath'), ('\\p{L u}', 'x', 'xpath'),
+    ('a\\p{Lu }b', '', 'xsd'), ('\\p{ L}+', 'i', 'xpath'),
     ('[^a\\D]', '', 'xpath'), ('[^5\\D]', '', 'xsd'), ('[^\\D\\S]', '', 'xsd'), ('[\\D\\S]', '', 'xsd'),
     ('[\\d-[^5]]', '', 'xsd'), ('[^\\W-[^a\\D]]', '', 'xpath'), ('[\\w-[^\\d]]', '', 'xsd'), ('[^a-[\\D]]', '', 'xsd'),
     ('[a-z-[aeiou]]', '', 'xsd'), ('[A-Z-[IO]]', 'i', 'xpath'), ('[^Q]', 'i', 'xpath'), ('([ab])[5a]\\1', 'i', 'xpath'),
@@ -1081,6 +1122,8 @@ SEED_FUNCTIONS = [
     ('\\$x', 'x', ''), ('b', '(a)|b\\1', ''), ('ab', '(a)|\\1', ''), ('abcd', '(ab)|(a)', ''), ('a', '#', 'x'), ('abc', 'b*', ''),
     ('Mum', '([md])[aeiou]\\1', 'i'), ('abracadabra', 'bra', ''), ('abracadabra', 'a.*?a', ''), ('', 'a', ''),
     ('The cat sat', '\\s+', ''), ('a1b22c', '\\d+', ''), ('+', '(()[\\C])', ''), ('ac', 'a((x)|(c))', ''),
+    ('ac', 'a(b?)c', ''), ('xacy', 'a(b?)c', ''), ('k=;j=1;', '([a-z])=([0-9]*);', ''), ('aXc', 'a(x?)X(y*)c', ''),
+    ('ab', '(x*)a(y*)b(z*)', ''), ('abab', 'a(x?)(y?)b', ''), ('ac', 'a((b?)c)', ''),
 ]
 
 
@@ -1112,6 +1155,8 @@ def run(h):
         h.case('translate', g_translate_case(r))
     for _ in range(h.n(230)):
         h.case('functions', g_functions_case(r))
+    for _ in range(h.n(300)):
+        h.case('functions', g_group_shape_case(r))
 
 
 def floors(v):
